@@ -13,7 +13,7 @@ Not decided: that the resulting set / balance / count equals the chain's for eve
 import ast
 
 from ..model import AnalysisError, norm, walk_own, const_value
-from .. import q, pathrules as pr, dataflow as df
+from .. import q, pathrules as pr, dataflow as df, paths as P
 from ..layout import World, Env, Lay, Rep, TOP, H32, tag, decode_ok
 from . import c03, c04
 from .roles import lookup_parts, nested_where, has_store_iter, AdvanceNames
@@ -431,7 +431,6 @@ def rule_unspendable(ctx):
         cfg = ctx.cfg(f)
         # the selection is decided per path through the function's preamble, so a conditional expression, an if/else
         # and any other spelling of the choice read the same
-        from .. import paths as P
         pre = []
         for st_ in f.node.body:
             if isinstance(st_, (ast.With, ast.AsyncWith, ast.For, ast.While)):
@@ -499,7 +498,6 @@ def rule_collision(ctx, rule='C01.COLLISION'):
     loops = [s for s in f.own_nodes() if isinstance(s, ast.For) and cand and cand in q.names_in(s.iter)]
     ok, why = False, 'candidate loop not found'
     if len(loops) == 1:
-        from .. import paths as P
         lp = loops[0]
         loopvars = {x.id for x in ast.walk(lp.target) if isinstance(x, ast.Name)}
         full = not (isinstance(cdefs[0].value, ast.DictComp) and (cdefs[0].value.generators[0].ifs or len(cdefs[0].value.generators) != 1
@@ -545,19 +543,22 @@ def rule_collision(ctx, rule='C01.COLLISION'):
     ok, why = False, 'row loop not found'
     if len(loops) == 1:
         lp = loops[0]
-        rets = [r for r in walk_own(lp) if isinstance(r, ast.Return)]
+        # per path through one turn of the row loop: a return has decided  <tx hash asked for> == <hash fs_tx_hash gives for the row>
+        # and nothing else (whether the looked-up hash is held in a local or compared straight from the call)
+        rets = [p_ for p_ in P.paths(lp.body) if p_.exit == 'return']
         good = True
-        for r in rets:
-            conds = pr.control_conditions(r, lp)
-            eq = [c for c in conds if c[1] and isinstance(c[0], ast.Compare) and isinstance(c[0].ops[0], ast.Eq)
-                  and lh.params[0] in (norm(c[0].left), norm(c[0].comparators[0]))]
-            if len(conds) != 1 or len(eq) != 1:
+        for p_ in rets:
+            ds = p_.decisions()
+            eq = [t for t, pol in ds if isinstance(t, ast.Compare) and len(t.ops) == 1
+                  and ((isinstance(t.ops[0], ast.Eq) and pol) or (isinstance(t.ops[0], ast.NotEq) and not pol))
+                  and lh.params[0] in (norm(t.left), norm(t.comparators[0]))
+                  and any(isinstance(c, ast.Call) and q.callee_name(ctx, lh, c) == 'self.fs_tx_hash' for c in ast.walk(t))]
+            if len(ds) != 1 or len(eq) != 1:
                 good = False
         brk = [x for x in walk_own(lp) if isinstance(x, ast.Break)]
         after = [r for r in lh.node.body if isinstance(r, ast.Return)]
         miss = len(after) == 1 and norm(after[0].value) == '(None, None)'
-        fsd = [s for s in walk_own(lp) if isinstance(s, ast.Assign) and isinstance(s.value, ast.Call) and q.callee_name(ctx, lh, s.value) == 'self.fs_tx_hash']
-        ok = bool(rets) and good and not brk and miss and len(fsd) == 1
+        ok = bool(rets) and good and not brk and miss
         why = f'every in-loop return under hash equality only={good}, no break={not brk}, miss returns (None, None)={miss}'
     ctx.check(ok, rule, ctx.key(lh, None, 'full-hash check'),
               'a prevout lookup returns a row only under full-hash equality, examines every row under the prefix, and reports a miss otherwise',
